@@ -206,7 +206,7 @@ pub fn run(tier: Tier) -> i32 {
     let pre = preflight();
     let seed = ctx.seed;
     let mut t = Tally::new();
-    let n = tier.n(8000, 40_000);
+    let n = tier.n(8000, 150_000);
     let c = corpus(seed, n);
     let reference = sequential_digests(&c);
     t.evaluations += n;
@@ -232,7 +232,7 @@ pub fn run(tier: Tier) -> i32 {
     let hot: Vec<Case> = c.iter().take(24).cloned().collect();
     let hot_ref: Vec<u64> = reference.iter().take(24).copied().collect();
     for threads in [2usize, 4, 8, 16] {
-        for (name, cs, rf, rounds) in [("hot", &hot, &hot_ref, tier.n(40, 600) as usize), ("full", &c, &reference, 1usize)] {
+        for (name, cs, rf, rounds) in [("hot", &hot, &hot_ref, tier.n(40, 3000) as usize), ("full", &c, &reference, 1usize)] {
             let st = threaded(cs, rf, threads, rounds, seed + threads as u64);
             t.evaluations += st.executions;
             t.add(&format!("threaded_executions/{}", threads), st.executions);
